@@ -376,13 +376,76 @@ func checkDecodeEntry(r *core.Result, prog *core.Program, lp *packages.Package) 
 			}
 			n++
 			o := oa.of(c.Args[0])
-			ok2 := o == oFresh || fastGuarded(info, parents, f.Body(), c)
+			ok2 := o == oFresh || fastGuarded(info, parents, f.Body(), c) || safeModeReplaced(info, lp, f.Body(), c, c.Args[0])
 			r.Ob("A-entry", name+" :: "+types.ExprString(c), prog.Pos(c.Pos()), ok2,
 				fmt.Sprintf("the %s buffer is recorded by the decode without a copy on a path that is not restricted to the fast mode", o))
 			return true
 		})
 	}
-	r.Floor("decode entry calls", n, 3)
+	r.Floor("decode entry calls", n, 2)
+}
+
+// safeModeReplaced: the argument is a local that starts as the caller's buffer and is replaced by a fresh copy under
+// `if <safe mode> { buf = <fresh> }` in the same statement list before the call, with no other assignment:
+//
+//	buf := data; if dec.mode == DecoderModeSafe { buf = slices.Clone(data) }; return dec.decodeWithPool(buf)
+//
+// so in safe mode the decode records the copy.
+func safeModeReplaced(info *types.Info, pk *packages.Package, body *ast.BlockStmt, call *ast.CallExpr, arg ast.Expr) bool {
+	id, ok := ast.Unparen(arg).(*ast.Ident)
+	if !ok {
+		return false
+	}
+	obj := info.Uses[id]
+	if obj == nil {
+		return false
+	}
+	replaced := false
+	others := 0
+	for _, st := range body.List {
+		if st.Pos() > call.Pos() {
+			break
+		}
+		switch x := st.(type) {
+		case *ast.AssignStmt:
+			for _, l := range x.Lhs {
+				if lid, ok := l.(*ast.Ident); ok && (info.Defs[lid] == obj || info.Uses[lid] == obj) {
+					if x.Tok != token.DEFINE {
+						others++
+					}
+					replaced = false // a later plain assignment undoes an earlier replacement
+				}
+			}
+		case *ast.IfStmt:
+			if x.Init == nil && x.Else == nil && isSafeModeCond(info, x.Cond) && len(x.Body.List) == 1 {
+				if as, ok := x.Body.List[0].(*ast.AssignStmt); ok && as.Tok == token.ASSIGN && len(as.Lhs) == 1 && len(as.Rhs) == 1 {
+					if lid, ok := as.Lhs[0].(*ast.Ident); ok && info.Uses[lid] == obj {
+						if c, ok := as.Rhs[0].(*ast.CallExpr); ok {
+							if name := types.ExprString(c.Fun); name == "slices.Clone" || name == "bytes.Clone" {
+								replaced = true
+								continue
+							}
+							if name := types.ExprString(c.Fun); name == "append" && len(c.Args) == 2 && c.Ellipsis != token.NoPos {
+								if tv, ok := info.Types[c.Args[0]]; ok && (tv.IsNil() || types.ExprString(c.Args[0]) == "[]byte(nil)" || types.ExprString(c.Args[0]) == "[]byte{}") {
+									replaced = true
+									continue
+								}
+							}
+						}
+					}
+				}
+			}
+			// any other statement that assigns the variable inside an if
+			if assignsObj(info, x, obj) {
+				others++
+			}
+		default:
+			if assignsObj(info, st, obj) {
+				others++
+			}
+		}
+	}
+	return replaced && others == 0
 }
 
 // genAliasRule (E3 part): in generated Unmarshal built WITHOUT enableunsafedecode, a value obtained from
